@@ -195,7 +195,9 @@ let case_flm ea eb alo ahi blo bhi res =
     let ok = s_flm_ok a b (n alo) (n ahi) (n blo) (n bhi) im in
     verdict "flm-sound" ok; if not ok then report "SPEC" "flm-sound" inp;
     let mx = s_flm_max a b (n alo) (n ahi) (n blo) (n bhi) im in
-    verdict "flm-maximal" mx; if not mx then report "SPEC" "flm-maximal" inp
+    verdict "flm-maximal" mx; if not mx then report "SPEC" "flm-maximal" inp;
+    let fs = s_flm_first a b (n alo) (n ahi) (n blo) (n bhi) im in
+    verdict "flm-earliest" fs; if not fs then report "SPEC" "flm-earliest" inp
   | _ -> ()
 
 let case_lists gen ea eb rest =
